@@ -49,5 +49,6 @@ func init() {
 	reg1("C16Alloc", SetupC16Alloc, HarnessC16Alloc)
 	reg1("C09Host", SetupC09Host, HarnessC09Host)
 	reg0("C10Round", HarnessC10Round)
+	reg1("C10Segments", SetupC10Segments, HarnessC10Segments)
 	reg1("C10Parse", SetupC10Parse, HarnessC10Parse)
 }
